@@ -46,7 +46,7 @@ static long run_workload (int format, int ch, int wl, int t, const MEMF *base, l
 	if (wl == WL_WRITE) { store.len = 0 ; si.format = format ; si.channels = ch ; si.samplerate = 8000 ; }
 	else { store.len = base->len ; memcpy (store.d, base->d, base->len) ; if ((format & SF_FORMAT_TYPEMASK) == SF_FORMAT_RAW) { si.format = format ; si.channels = ch ; si.samplerate = 8000 ; } }
 	for (i = 0 ; i < 4096 ; i++) switch (t) { case T_SHORT : ((short *) buf) [i] = (short) (i * 13) ; break ; case T_INT : ((int *) buf) [i] = i * 500000 ; break ; case T_FLOAT : ((float *) buf) [i] = 0.001f * (i % 900) ; break ; default : buf [i] = 0.001 * (i % 900) ; }
-	h0 = __sanitizer_get_current_allocated_bytes () ; f0 = count_fds () ;
+	h0 = vh_heap_bytes () ; f0 = count_fds () ;
 	s = sf_open_virtual (&MVIO, wl == WL_WRITE ? SFM_WRITE : wl == WL_READ ? SFM_READ : SFM_RDWR, &si, &store) ;
 	if (s == NULL)
 	{	if (fault_at == 0) { store.budget = 0 ; return -1 ; }
@@ -82,12 +82,12 @@ static long run_workload (int format, int ch, int wl, int t, const MEMF *base, l
 accounted :
 	calls = store.ncalls ; store.budget = 0 ;
 	if (fault_at > 0)
-	{	size_t h1 = __sanitizer_get_current_allocated_bytes () ; int f1 = count_fds () ;
+	{	size_t h1 = vh_heap_bytes () ; int f1 = count_fds () ;
 		if (store.fired) vh_stat ("fault_points_fired", 1) ; else vh_stat ("fault_points_not_reached", 1) ;
 		if (h1 > h0 || f1 != f0)
 		{	/* must repeat (lazy libc allocations do not) */
-			static int depth ; if (!depth) { long c2 ; size_t g0 = __sanitizer_get_current_allocated_bytes () ; depth = 1 ; c2 = run_workload (format, ch, wl, t, base, fault_at, kind, persist) ; depth = 0 ; (void) c2 ;
-				if (__sanitizer_get_current_allocated_bytes () > g0) vh_viol (vh_key ("C15|leak-after-fault|%s|%s|%s", cur_fn, wlname [wl], s ? "close" : "failed-open"), "fault %s at callback %ld (%s): live heap %zu -> %zu bytes, descriptors %d -> %d", kname [kind], fault_at, persist ? "persistent" : "single-shot", h0, h1, f0, f1) ; }
+			static int depth ; if (!depth) { long c2 ; size_t g0 = vh_heap_bytes () ; depth = 1 ; c2 = run_workload (format, ch, wl, t, base, fault_at, kind, persist) ; depth = 0 ; (void) c2 ;
+				if (vh_heap_bytes () > g0) vh_viol (vh_key ("C15|leak-after-fault|%s|%s|%s", cur_fn, wlname [wl], s ? "close" : "failed-open"), "fault %s at callback %ld (%s): live heap %zu -> %zu bytes, descriptors %d -> %d", kname [kind], fault_at, persist ? "persistent" : "single-shot", h0, h1, f0, f1) ; }
 			}
 		}
 	return calls ;
